@@ -64,7 +64,8 @@ def collapse(events):
 def judge(sh, prog, text, syntax, style, res, expect, source="generated"):
     """compare one compilation with the model's expectation. returns True if agreed"""
     h = _h(text)
-    rp = {"text": text, "syntax": syntax, "style": style}
+    from ..core import pack
+    rp = {"text": text, "syntax": syntax, "style": style, "case": pack(prog)}
     facts = {"program": text, "syntax": syntax, "style": style}
     if "panic" in res:
         msg = res["panic"].get("msg", "")
@@ -154,9 +155,14 @@ def _h(text):
 
 
 def replay(sh, payload):
+    from ..core import unpack, rejudge
     r = payload["replay"]
-    res = sh.w.compile({"text": r["text"], "syntax": r["syntax"], "style": r["style"]})
-    print(r["text"])
-    print(res.get("ok") or res.get("err") or res)
-    print(res.get("log"))
-    return "see output (the model's expectation is in the replay file's facts)"
+    prog = unpack(r["case"])
+    expect = M.execute(prog)
+    text = ast.to_scss(prog) if r["syntax"] == "scss" else ast.to_sass(prog)
+    res = sh.w.compile({"text": text, "syntax": r["syntax"], "style": r["style"], "budgets": {"steps": 500000}})
+    print(text)
+    print("grass:", res.get("ok") or res.get("err") or res)
+    print("grass log:", res.get("log"))
+    print("model: %s %s" % (expect["status"], expect["decls"] if expect["status"] == "ok" else expect["error"]))
+    return rejudge(sh, lambda: judge(sh, prog, text, r["syntax"], r["style"], res, expect, "replay"))
